@@ -658,6 +658,17 @@ def t_solvers():
                        "raise ValueError('Too many backtracks, maybe bad initial guess?')", "raise ValueError(f'No convergence after {maxcount} iterations')"):
             if needed not in ssrc:
                 raise Unsupported(f'{nm}: expected structure `{needed}`')
+    # provide_solver_default: which unknown specifications are accepted when no solver is named
+    pd = find_def('blocks/support/steady_state.py', 'provide_solver_default')
+    alls = [n for n in ast.walk(pd) if isinstance(n, ast.Call) and ast.unparse(n.func) == 'np.all']
+    every = (len(alls) == 1 and len(alls[0].args) == 1 and isinstance(alls[0].args[0], ast.ListComp)       # a generator would make np.all truthy whatever it yields
+             and ast.unparse(alls[0].args[0].elt) == 'isinstance(v, Real)' and ast.unparse(alls[0].args[0].generators[0].iter) == 'init_values')
+    psrc = ast.unparse(pd)
+    shape = all(x in psrc for x in ('if len(unknowns) == 1:', 'if not isinstance(bounds, tuple) or bounds[0] > bounds[1]:', "return 'brentq'", 'elif len(unknowns) > 1:',
+                                    'init_values = list(unknowns.values())', 'if not np.all([isinstance(v, Real) for v in init_values]):', "return 'broyden_custom'")) \
+        and psrc.count('raise ValueError') == 3
+    out += f"Definition default_solver_validates_every_unknown : bool := {'true' if every else 'false'}.\n"
+    out += f"Definition default_solver_decision_shape : bool := {'true' if shape else 'false'}.\n"
     return out
 
 
@@ -798,6 +809,13 @@ def t_hetfacts():
         "curlyY = {k: np.vdot(D, shocked_outputs[k]) for k in output_list}", "curlyY[k] += np.vdot(Dbeg, shock)", "return (curlyV, curlyD, curlyY)"))
     dmn = ast.unparse(find_def('utilities/misc.py', 'demean'))
     facts['demean_subtracts_mean'] = 'return x - x.sum() / x.size' in dmn
+    sbs = find_def('blocks/stage_block.py', 'StageBlock.backward_steady_state')
+    ssrc = ast.unparse(sbs)
+    sloops = [n for n in sbs.body if isinstance(n, ast.For) and n.orelse]
+    facts['stage_backward_steady_state_shape'] = (len(sloops) == 1 and isinstance(sloops[0].orelse[0], ast.Raise)
+        and 'if it % 10 == 0 and all((within_tolerance(backward_new[k], backward[k], tol) for k in backward)):' in ssrc
+        and 'backward_new = self.backward_step_steady_state(backward, ss)' in ssrc and 'backward = backward_new' in ssrc
+        and 'backward = {k: ss[k] for k in self.stages[0].backward_outputs}' in ssrc)
     sfn = U('HetBlock.backward_step_fakenews')
     facts['hetoutput_derivative_sees_direct_input'] = "differentiable_hetoutput.diff({**shocked_outputs, **din_dict}, outputs=differentiable_hetoutput.outputs & output_list)" in sfn
     fun = 'utilities/function.py'
